@@ -107,6 +107,10 @@ pub fn one_script(r: &mut Rng, nlabels: usize, mode: &str) -> (Vec<u64>, Vec<u64
             if w.link_len(d) > 0 {
                 cands.push((6 + 2 * w.link_len(d).min(4) as u32, vec![18, d as u64]));
             }
+            if w.link_len(d) > 1 {
+                // a burst: everything in flight arrives before the task runs again
+                cands.push((if inject || mode.contains("end") { 4 } else { 2 }, vec![34, d as u64]));
+            }
         }
         for e in 0..2usize {
             let eu = e as u64;
